@@ -444,13 +444,15 @@ impl IoLoop {
                 }
             }
             HEARTBEAT => self.inner.process_heartbeat_timers()?,
+            // The channel 0 slot is dropped as soon as we leave the Steady state, which can
+            // happen earlier in this same batch of events (e.g., the server's Close arrived
+            // on the socket). A still-pending wakeup for one of its receivers is stale then;
+            // the dropped slot already reports the failure to the waiting handle.
             SET_BLOCKED_TX => match state {
                 ConnectionState::Steady(ch0_slot) => self.handle_set_blocked_tx(ch0_slot)?,
                 ConnectionState::ServerClosing(_)
                 | ConnectionState::ClientException
-                | ConnectionState::ClientClosed => {
-                    unreachable!("ch0 slot cannot be readable after it is dropped")
-                }
+                | ConnectionState::ClientClosed => (),
             },
             ALLOC_CHANNEL => match &state {
                 ConnectionState::Steady(ch0_slot) => {
@@ -458,9 +460,7 @@ impl IoLoop {
                 }
                 ConnectionState::ServerClosing(_)
                 | ConnectionState::ClientException
-                | ConnectionState::ClientClosed => {
-                    unreachable!("ch0 slot cannot be readable after it is dropped")
-                }
+                | ConnectionState::ClientClosed => (),
             },
             Token(0) => match &state {
                 ConnectionState::Steady(ch0_slot) => {
@@ -468,9 +468,7 @@ impl IoLoop {
                 }
                 ConnectionState::ServerClosing(_)
                 | ConnectionState::ClientException
-                | ConnectionState::ClientClosed => {
-                    unreachable!("ch0 slot cannot be readable after it is dropped")
-                }
+                | ConnectionState::ClientClosed => (),
             },
             Token(n) if n <= u16::max_value() as usize => {
                 self.inner.handle_channel_readable(n as u16)?
